@@ -278,7 +278,21 @@ static void sfd_history(vt::Rng& r) {
   int nops = (int)r.range(3, 14);
   for (int i = 0; i < nops; i++) {
     int a = 1 + (int)r.below(4), b = 1 + (int)r.below(4);
-    switch (r.below(6)) {
+    switch (r.below(7)) {
+      case 6:
+        // open() on an object that may already hold a descriptor: the old one is given up (closed once), the new one held
+        if (slot[a]) {
+          bool cstr = r.chance(50);
+          if (cstr) slot[a]->open("/dev/null", O_RDONLY);
+          else slot[a]->open(string("/dev/null"), O_RDONLY);
+          int fd = (int)*slot[a];
+          real_fds.push_back(fd);
+          tracked[fd] = next_logical;
+          adopted.push_back(next_logical);
+          next_logical++;
+          emit(cstr ? "open_c" : "open_s", a, 0, tracked[fd]);
+        }
+        break;
       case 0:
         if (!slot[a]) {
           int fd = fresh();
